@@ -214,6 +214,8 @@ VSread(int32 vkey,  /* IN: vdata key */
     w           = &(vs->wlist);
     r           = &(vs->rlist);
     hsize       = (int)vs->wlist.ivsize; /* size as stored in HDF */
+    if (nelt < 0) /* a negative record count is not a request for "all the rest" */
+        HGOTO_ERROR(DFE_ARGS, FAIL);
     total_bytes = hsize * nelt;
 
     /*
